@@ -25,8 +25,9 @@ from custom_components.pyscript.global_ctx import GlobalContext, GlobalContextMg
 from homeassistant.core import State as CoreState, Context, Event as HAEvent
 from . import vdt
 
-T0 = 1000          # virtual clock start (must be > 0: TimeActiveDecorator uses last_trig_time > 0.0 as "never")
-BASE_DATE = (2020, 6, 1, 12, 0, 0)   # dt_now() = BASE_DATE + (clock - T0) seconds
+T0 = 1000 * 10**6   # virtual clock start in MICROSECONDS (must be > 0: TimeActiveDecorator uses last_trig_time > 0.0 as "never")
+BASE_DATE = (2020, 6, 1, 12, 0, 0)   # dt_now() = BASE_DATE + (clock - T0)
+SEC = 10**6
 _REAL = {"Queue": asyncio.Queue, "sleep": asyncio.sleep, "wait_for": asyncio.wait_for, "current_task": asyncio.current_task,
          "get_running_loop": asyncio.get_running_loop, "gather": asyncio.gather, "wait": asyncio.wait}
 
@@ -61,15 +62,32 @@ class VQueue:
     def qsize(self): return len(self.items)
 
 
+def dur_us(d):
+    """a duration handed to sleep()/wait_for() (int, float or exact rational VNum seconds) -> integer microseconds, rounded up"""
+    if isinstance(d, vdt.VNum):
+        return -((-d.n * SEC) // d.d)
+    if isinstance(d, int):
+        return d * SEC
+    if isinstance(d, float) and not type(d) is float:
+        raise RuntimeError("symbolic float duration: clock arithmetic must stay in VNum/int")
+    import math
+    return math.ceil(d * SEC)
+
+
+def secs(us):
+    """microseconds -> the value pyscript sees as `seconds`: an exact rational (int-backed, stays symbolic)"""
+    return vdt.VNum(us, SEC)
+
+
 class _Sleep:
-    """wait until virtual time >= t, or (if q) an item is available"""
+    """wait until virtual time >= t (microseconds), or (if q) an item is available"""
     def __init__(self, env, t, q=None): self.env, self.t, self.q = env, t, q
     def __await__(self):
         first = self.q is None          # asyncio.sleep always yields at least once
         while True:
             if self.q is not None and self.q.items:
                 return ("item", self.q.items.pop(0))
-            if not first and self.env.now >= self.t:
+            if not first and self.env.now_us >= self.t:
                 return ("timeout", None)
             first = False
             yield self
@@ -136,8 +154,9 @@ class Env:
     current = None
     def __init__(self):
         Env.current = self
-        self.now = T0
+        self.now_us = T0
         self.ready = deque(); self.tasks = []; self.cur = None; self.timers = []; self.chooser = None
+        self.early = None            # optional callable() -> microseconds a timer may fire early (symbolic early wake-ups)
     # -- ready queue
     def _ready(self, t):
         if not t.queued and not t.done_:
@@ -185,7 +204,7 @@ class Env:
             self._ready(t)          # bare yield (sleep(0))
         else:
             raise RuntimeError(f"task awaits unknown object {nw!r}")
-    def settle(self, limit=200000):
+    def settle(self, limit=20000):
         for _ in range(limit):
             if not self.ready: return
             if self.chooser is not None and len(self.ready) > 1:
@@ -201,32 +220,39 @@ class Env:
             x.queued = False
             self._step(x)
         raise RuntimeError("livelock")
+    @property
+    def now(self): return secs(self.now_us)
+    @property
+    def t(self): return self.now_us - T0
     def _fire_due(self):
-        due = sorted([x for x in self.timers if x[0] <= self.now], key=lambda x: (x[0], x[1]))
+        due = sorted([x for x in self.timers if x[0] <= self.now_us], key=lambda x: (x[0], x[1]))
         for x in due:
             self._ready(x[2])
-    def advance(self, t_to):
-        """advance virtual time to absolute t_to, firing timers in deadline order"""
+    def advance(self, t_rel):
+        """advance virtual time to T0 + t_rel microseconds, firing timers in deadline order"""
+        t_to = T0 + t_rel
         while True:
             self.settle()
             nxt = None
             for x in self.timers:
                 if not x[2].done_ and x[0] <= t_to and (nxt is None or x[0] < nxt): nxt = x[0]
             if nxt is None: break
-            if nxt > self.now: self.now = nxt
+            if nxt > self.now_us: self.now_us = nxt
             self._fire_due(); self.settle()
-        if t_to > self.now: self.now = t_to
+        if t_to > self.now_us: self.now_us = t_to
         self._fire_due(); self.settle()
     # -- asyncio replacements
+    def _early(self):
+        return self.early() if self.early is not None else 0
     async def sleep(self, d, result=None):
-        await _Sleep(self, self.now + d); return result
+        await _Sleep(self, self.now_us + dur_us(d) - self._early()); return result
     async def wait_for(self, aw, timeout):
         if isinstance(aw, (Task, VFuture)):
             raise RuntimeError("wait_for(task) not modelled")
         q = aw.cr_frame.f_locals["self"]; aw.close()
         if timeout is None:
             return await _Wait(q)
-        kind, item = await _Sleep(self, self.now + timeout, q)
+        kind, item = await _Sleep(self, self.now_us + dur_us(timeout) - self._early(), q)
         if kind == "timeout": raise asyncio.TimeoutError()
         return item
     async def gather(self, *aws, return_exceptions=False):
@@ -234,30 +260,20 @@ class Env:
         for a in aws: out.append(await a)
         return out
     async def wait(self, aws, timeout=None, return_when="ALL_COMPLETED"):
-        aws = list(aws); deadline = None if timeout is None else self.now + timeout
+        aws = list(aws); deadline = None if timeout is None else self.now_us + dur_us(timeout)
         while True:
             done = {a for a in aws if a.done()}; pending = set(aws) - done
-            if not pending or (return_when == "FIRST_COMPLETED" and done) or (deadline is not None and self.now >= deadline) \
+            if not pending or (return_when == "FIRST_COMPLETED" and done) or (deadline is not None and self.now_us >= deadline) \
                or (return_when == "FIRST_EXCEPTION" and any((not a.cancelled()) and a.exception() for a in done)):
                 return done, pending
-            if deadline is not None: await _Sleep(self, min(deadline, self.now + 1))
+            if deadline is not None: await _Sleep(self, min(deadline, self.now_us + SEC))
             else:
                 p = next(iter(sorted(pending, key=lambda t: t.seq)))
                 try: await p
                 except (Exception, asyncio.CancelledError): pass
-    def monotonic(self): return self.now
+    def monotonic(self): return secs(self.now_us)
     def dt_now(self):
-        return vdt.datetime(*BASE_DATE) + vdt.timedelta._mk(_us(self.now - T0))
-
-
-def _us(secs):
-    """seconds (int / symbolic int / float / real) -> integer microseconds"""
-    if isinstance(secs, int): return secs * 10**6
-    v = secs * 10**6
-    try:
-        return int(v)
-    except Exception:
-        return v
+        return vdt.datetime(*BASE_DATE) + vdt.timedelta._mk(self.now_us - T0)
 
 
 # ------------------------------------------------------------------------------------------ stub Home Assistant
@@ -331,7 +347,7 @@ class Bus:
 class Loop:
     def __init__(self, env): self.env = env
     def create_task(self, coro, name=None, **k): return self.env.create_task(coro, name or "")
-    def time(self): return self.env.now
+    def time(self): return self.env.monotonic()
     def create_future(self): return VFuture()
     def call_soon(self, cb, *a, **k): self.env._call_soon(cb, *a)
     def call_soon_threadsafe(self, cb, *a, **k): self.env._call_soon(cb, *a)
@@ -396,8 +412,9 @@ class World:
             patch(asyncio, "current_task", lambda loop=None: env.cur)
             patch(asyncio, "get_running_loop", lambda: self.hass.loop)
             patch(asyncio, "gather", env.gather); patch(asyncio, "wait", env.wait)
-        patch(trigger, "dt", vdt); patch(dtiming, "dt", vdt)
-        patch(trigger, "math", vdt.vmath)
+        if not self.real:
+            patch(trigger, "dt", vdt); patch(dtiming, "dt", vdt)
+            patch(trigger, "math", vdt.vmath)
         patch(trigger, "dt_now", env.dt_now); patch(dtiming, "dt_now", env.dt_now) if hasattr(dtiming, "dt_now") else None
         patch(trigger, "time", TM); patch(dtiming, "time", TM)
         async def nop(*a, **k): return None
@@ -464,7 +481,7 @@ class World:
 
 # ------------------------------------------------------------------------------------------ real asyncio, virtual clock
 class VSelector(selectors.DefaultSelector):
-    def __init__(self): super().__init__(); self.vt = float(T0)
+    def __init__(self): super().__init__(); self.vt = float(T0) / SEC
     def select(self, timeout=None):
         if timeout is not None and timeout > 0: self.vt += timeout
         return super().select(0)
@@ -482,6 +499,11 @@ class RealEnv:
     @property
     def now(self): return round(self.loop.time(), 6)
     @property
+    def now_us(self): return int(round(self.loop.time() * SEC))
+    @property
+    def t(self): return self.now_us - T0
+    early = None
+    @property
     def cur(self):
         try: return asyncio.current_task(self.loop)
         except RuntimeError: return None
@@ -490,13 +512,14 @@ class RealEnv:
         self.loop.run_until_complete(self._drain())
     async def _drain(self):
         for _ in range(60): await _REAL["sleep"](0)
-    def advance(self, t_to):
-        d = t_to - self.now
+    def advance(self, t_rel):
+        d = (T0 + t_rel - self.now_us) / SEC
         if d > 0: self.loop.run_until_complete(_REAL["sleep"](d))
         self.settle()
     def monotonic(self): return self.loop.time()
     def dt_now(self):
-        return vdt.datetime(*BASE_DATE) + vdt.timedelta._mk(int(round((self.now - T0) * 10**6)))
+        import datetime as _rdt
+        return _rdt.datetime(*BASE_DATE) + _rdt.timedelta(microseconds=self.now_us - T0)
 
 
 class RealWorld(World):
